@@ -88,13 +88,13 @@ def run(report, p):
 
     # ------------------------------------------------------------------ R19.2
     r2 = report.rule("R19.2", "generation listing: a loop over the full generation list logs, on every path, number and creation date of the loop's own generation; the listing recurses into every child history (all levels)", 2)
-    gl = [p.funcs[q] for q in reach if any(isinstance(n, ast.For) and norm(n.iter).endswith(".hash_lists") for n in walk_no_nested(p.funcs[q].node)) and any("Generation" in norm(x) for x in walk_no_nested(p.funcs[q].node) if isinstance(x, ast.JoinedStr)) and not any("hash_entries" in norm(n.iter) for n in walk_no_nested(p.funcs[q].node) if isinstance(n, ast.For))]
+    gl = [p.funcs[q] for q in reach if any(isinstance(n, ast.For) and ".hash_lists" in norm(n.iter) for n in walk_no_nested(p.funcs[q].node)) and any("Generation" in norm(x) for x in walk_no_nested(p.funcs[q].node) if isinstance(x, ast.JoinedStr)) and not any("hash_entries" in norm(n.iter) for n in walk_no_nested(p.funcs[q].node) if isinstance(n, ast.For))]
     if len(gl) != 1:
         raise AnalysisError(f"generation lister not found: {[f.qual for f in gl]}")
     L = gl[0]
     gL = cfg_of(L)
     for n in walk_no_nested(L.node):
-        if isinstance(n, ast.For) and norm(n.iter).endswith(".hash_lists"):
+        if isinstance(n, ast.For) and ".hash_lists" in norm(n.iter):
             r2.instance(L, n, f"for {norm(n.target)} in {norm(n.iter)}")
             r2.check(is_plain_iter(p, n.iter) and norm(n.iter) == f"{L.params[0]}.hash_lists", L, n.iter, "the generation listing covers only a slice / another list of generations", construct=n.iter)
             ln = gL.by_ast[id(n)]
@@ -110,7 +110,7 @@ def run(report, p):
             brk = [x for s in n.body for x in ast.walk(s) if isinstance(x, (ast.Break, ast.Return, ast.Continue))]
             r2.check(not brk, L, brk[0] if brk else n, "the generation listing can skip or stop early")
     # recursion over all children
-    kids = [n for n in walk_no_nested(L.node) if isinstance(n, ast.For) and norm(n.iter).endswith(".child_histories")]
+    kids = [n for n in walk_no_nested(L.node) if isinstance(n, ast.For) and ".child_histories" in norm(n.iter)]
     r2.instance(L, kids[0] if kids else L.node, "child recursion")
     okk = len(kids) == 1 and is_plain_iter(p, kids[0].iter) and norm(kids[0].iter) == f"{L.params[0]}.child_histories"
     if okk:
@@ -126,14 +126,14 @@ def run(report, p):
 
     # ------------------------------------------------------------------ R19.3
     r3 = report.rule("R19.3", "per-file listing: every generation (skipped only when it has no record for the path) and every entry of the record produce one line whose fields are generation number, format, digest and action of the matching loop variables", 2)
-    fl = [p.funcs[q] for q in reach if any(isinstance(n, ast.For) and norm(n.iter).endswith(".hash_entries") for n in walk_no_nested(p.funcs[q].node))]
+    fl = [p.funcs[q] for q in reach if any(isinstance(n, ast.For) and ".hash_entries" in norm(n.iter) for n in walk_no_nested(p.funcs[q].node))]
     fl = [f for f in fl if f.module.name.endswith("commands")]
     if len(fl) != 1:
         raise AnalysisError(f"per-file lister not found: {[f.qual for f in fl]}")
     F = fl[0]
     gF = cfg_of(F)
-    outer = [n for n in walk_no_nested(F.node) if isinstance(n, ast.For) and norm(n.iter).endswith(".hash_lists")]
-    inner = [n for n in walk_no_nested(F.node) if isinstance(n, ast.For) and norm(n.iter).endswith(".hash_entries")]
+    outer = [n for n in walk_no_nested(F.node) if isinstance(n, ast.For) and ".hash_lists" in norm(n.iter)]
+    inner = [n for n in walk_no_nested(F.node) if isinstance(n, ast.For) and ".hash_entries" in norm(n.iter)]
     if len(outer) != 1 or len(inner) != 1:
         raise AnalysisError("per-file lister: generation / entry loops not found")
     o, i = outer[0], inner[0]
